@@ -969,8 +969,11 @@ func generate(R *core.Rand, thorough bool, emit func(class string, nontrivial bo
 				// quick: every (variant, mutator, arg) in two or three different contexts, cache mode by the seed chosen by the seed; thorough: all contexts x both cache modes
 				var picks []recipe
 				if thorough {
+					// every context class, each for two thirds of the (variant, mutator, argument) triples
 					for _, c := range ctxs {
-						picks = append(picks, recipe{vi, c, R.Intn(2), m.name, a})
+						if R.Chance(2, 3) {
+							picks = append(picks, recipe{vi, c, R.Intn(2), m.name, a})
+						}
 					}
 				} else {
 					// one context, a second different one a third of the time
